@@ -5,6 +5,7 @@ package config_test
 import (
 	"fmt"
 	"net/netip"
+	"slices"
 	"strings"
 	"testing"
 	"time"
@@ -78,7 +79,7 @@ func TestVerifC14Config(t *testing.T) {
 		cfg, err := config.Parse(strings.NewReader(toml), time.Unix(1_700_000_000, 0))
 		if err != nil {
 			c.Tags = append(c.Tags, "parse:rejected")
-			c.Coq = verifh.App("mkCase", verifh.Some(verifh.List(raw)), "(Err 0%N)", verifh.Z(0), verifh.None(), "(Err 0%N)")
+			c.Coq = verifh.App("mkCase", verifh.Some(verifh.List(raw)), "(Err 0%N)", verifh.Z(0), verifh.None(), "(Err 0%N)", "[]")
 			c.Input, c.Observed = input, "rejected"
 			out.Emit(c)
 			return
@@ -106,13 +107,35 @@ func TestVerifC14Config(t *testing.T) {
 		ra := &ndp.RouterAdvertisement{}
 		aerr := p.Apply(ra)
 		obsCoq, obsJ := verifw.Result(ra, aerr)
-		c.Tags = append(c.Tags, "parse:accepted", "auto:"+verifh.B(p.Auto), fmt.Sprintf("static:%d", len(p.Servers)))
+		// The advertiser applies the SAME parser-produced plugin value for every RA it sends: apply it
+		// 2..4 times in all. Every result is compared with the plugin as parsed (ss above was taken
+		// before the first application) and with the model.
+		applications := 2 + r.Intn(3)
+		var againCoq []string
+		againJ := []any{}
+		for k := 1; k < applications; k++ {
+			rak := &ndp.RouterAdvertisement{}
+			errk := p.Apply(rak)
+			ck, jk := verifw.Result(rak, errk)
+			againCoq = append(againCoq, ck)
+			againJ = append(againJ, jk)
+		}
+		var after []string
+		for _, s := range p.Servers {
+			after = append(after, s.String())
+		}
+		if !slices.Equal(after, sj) {
+			c.ImplViolation = fmt.Sprintf("Apply modified the parsed static server list: %v -> %v", sj, after)
+		}
+		c.Tags = append(c.Tags, "parse:accepted", "auto:"+verifh.B(p.Auto), fmt.Sprintf("static:%d", len(p.Servers)),
+			fmt.Sprintf("applications:%d", applications))
 		c.Coq = verifh.App("mkCase", verifh.Some(verifh.List(raw)),
 			verifh.App("Ok", verifh.Pair(verifh.B(p.Auto), verifh.List(ss))),
-			verifh.Z(int64(p.Lifetime)), verifh.Some(verifw.IPsCoq(ips)), obsCoq)
+			verifh.Z(int64(p.Lifetime)), verifh.Some(verifw.IPsCoq(ips)), obsCoq, verifh.List(againCoq))
 		input["addrs"] = verifw.IPsJSON(ips)
+		input["applications"] = applications
 		c.Input = input
-		c.Observed = map[string]any{"auto": p.Auto, "static": sj, "apply": obsJ}
+		c.Observed = map[string]any{"auto": p.Auto, "static": sj, "apply": obsJ, "apply_again": againJ}
 		out.Emit(c)
 	}
 
